@@ -140,6 +140,8 @@ def gen_num(e, d):
         dd, ks = known_dict(e, 'num', d)
         return 'get(%s, %s, %s)' % (dd, r.choice(KEYS), gen_num(e, d - 1))
     if c == 21:
+        if r.random() < 0.3:
+            return 'try_(v => %s, %s)' % (lambda_body(e, {'v': 'num'}, 'num', d - 1), gen_num(e, d - 1))
         return '%s | %s' % (gen_list(e, 'num', d - 1), r.choice(['sum', 'len']))
     if c == 22:
         return '%s.%s()' % (gen_list(e, 'num', d - 1), r.choice(['sum', 'len']))
@@ -290,6 +292,8 @@ def gen_list(e, et, d):
     if c == 12:
         return 'values(%s)' % gen_dict(e, et, d - 1)
     if c == 13:
+        if et == 'num' and r.random() < 0.5:
+            return 'hm(v => %s, %s)' % (lambda_body(e, {'v': 'num'}, 'num', d - 1), r.choice(['0', '1', '2', '3']))
         return 'list(%s)' % ', '.join(gen(e, et, d - 1) for _ in range(r.randint(0, 3)))
     if c == 14:
         return '%s | %s' % (gen_list(e, et, d - 1), r.choice(['reversed', 'sorted' if et in ('num', 'str') else 'reversed', 'filter(v => True)']))
@@ -548,9 +552,21 @@ def fault_statement(e, kind):
     return None
 
 
+def _hm(f, n):
+    return [f(D(i)) for i in range(int(n))]
+
+
+def _try(f, *a):
+    try:
+        return f(*a)
+    except Exception:
+        return 'caught'
+
+
 def host_names(r):
-    """plain-data host bindings (ints alongside decimals) - fresh objects on every call"""
+    """host bindings: plain data (ints alongside decimals) and two host callbacks - fresh data objects on every call"""
     return {
+        'hm': _hm, 'try_': _try,
         'h_num': r.choice([5, D('2.5'), 0, -3, D('100')]), 'h_int': 7, 'h_str': r.choice(['host', 'Hello', '']), 'h_list': [D(1), D(2), 3], 'h_strs': ['b', 'a', 'c'],
         'h_dict': {'a': D(1), 'b': 2}, 'h_bool': True, 'h_none': None, 'h_nested': [[D(1)], [D(2), D(3)]],
     }
@@ -579,3 +595,15 @@ def gen_program(r, max_lines=8, depth=4, fault_rate=0.15):
                 continue
         lines.append(gen_statement(e, r.randint(1, depth)))
     return lines, e
+
+
+def gen_ast_body(r, depth=3):
+    """a multi-statement lambda body over parameters p0, p1 (numbers): locals vanish with the call"""
+    e = Env(r)
+    e.vars.update(HOST_TYPES)
+    e.lens.update({'h_list': 3, 'h_strs': 3, 'h_nested': 2})
+    e.keys.update({'h_dict': ['"a"', '"b"']})
+    e.vars.update({'p0': 'num', 'p1': 'num'})
+    lines = [gen_statement(e, r.randint(1, depth)) for _ in range(r.randint(1, 4))]
+    lines.append(gen(e, r.choice(['num', 'str', ('list', 'num')]), 2))
+    return '\n'.join(lines)
